@@ -2,6 +2,7 @@ package main
 
 import (
 	"fmt"
+	"os"
 	"strings"
 
 	"github.com/NethermindEth/juno/consensus/types"
@@ -12,9 +13,10 @@ func typesHeight(h uint64) types.Height { return types.Height(h) }
 func typesRound(r int) types.Round      { return types.Round(r) }
 
 type runner struct {
-	c   *hx.Ctx
-	or  *hx.Oracle
-	rng *hx.RNG
+	c      *hx.Ctx
+	or     *hx.Oracle
+	rng    *hx.RNG
+	prevNS string
 }
 
 func fixedFeeder(ins []In) feeder {
@@ -84,9 +86,39 @@ func classifyConflict(self int, pre, post []string) (string, string) {
 	return "recovery:conflict-unclassified", ""
 }
 
+// how the previous life ended decides the name space of what is found in this one
+func faultKind(l *Life, obs *lifeObs) string {
+	if l.Fault == nil {
+		return "recovery"
+	}
+	if l.Fault.Kind == "cancel" {
+		return "shutdown"
+	}
+	if strings.HasPrefix(obs.failedOp(), "cb:") {
+		return "listener-refuses"
+	}
+	return "wal-error"
+}
+
+func cleanStep(s stepObs) stepObs {
+	c := stepObs{Label: s.Label}
+	for _, e := range s.Effs {
+		if !isMarker(e) {
+			c.Effs = append(c.Effs, e)
+		}
+	}
+	return c
+}
+
 // judge one life: model correspondence + the property predicates on the observed effects
 func (x *runner) judge(sc *Scenario, idx int, obs *lifeObs, pre []string, nextH uint64) {
 	l := &sc.Lives[idx]
+	// ns: "recovery" unless this life, or the one it recovers from, ended through the regular return path
+	ns := faultKind(l, obs)
+	if ns == "recovery" && idx > 0 && sc.Lives[idx-1].Fault != nil {
+		ns = x.prevNS
+	}
+	x.prevNS = ns
 	lines := x.or.AskUntil(lifeLine(l), "end")
 	sum := strings.Fields(lines[len(lines)-1])
 	model := lines[:len(lines)-1]
@@ -100,6 +132,9 @@ func (x *runner) judge(sc *Scenario, idx int, obs *lifeObs, pre []string, nextH 
 	}
 	if l.CrashAt >= 0 {
 		phase += ":killed"
+	}
+	if l.Fault != nil {
+		phase += ":" + l.Fault.Kind
 	}
 	mismatch := ""
 	if strings.Join(model, "\n") != strings.Join(got, "\n") {
@@ -116,6 +151,10 @@ func (x *runner) judge(sc *Scenario, idx int, obs *lifeObs, pre []string, nextH 
 				break
 			}
 		}
+	} else if l.Fault != nil {
+		if sum[5] != fmt.Sprint(nextH) {
+			mismatch = fmt.Sprintf("life %d resume height: model %s harness %d", idx, sum[5], nextH)
+		}
 	} else if l.CrashAt < 0 {
 		if sum[1] != fmt.Sprint(obs.Height) || sum[3] != fmt.Sprint(l.Base+obs.Calls) {
 			mismatch = fmt.Sprintf("life %d end: model height/calls %s/%s driver %d/%d", idx, sum[1], sum[3], obs.Height, l.Base+obs.Calls)
@@ -125,22 +164,27 @@ func (x *runner) judge(sc *Scenario, idx int, obs *lifeObs, pre []string, nextH 
 	}
 	// predicates on what the implementation did
 	post := make([]string, len(got))
-	copy(post, got)
+	for i, s := range obs.Steps {
+		post[i] = stepLine(cleanStep(s))
+	}
 	v := strings.Fields(x.or.Ask(fmt.Sprintf("check %d ; %s ; %s", sc.Case.H0, strings.Join(pre, " "), strings.Join(post, " | ")), 1)[0])
 	bad := false
 	if v[0] != "1" {
 		bad = true
 		class, what := classifyConflict(sc.Case.Self, pre, obs.effects())
+		if class != "recovery:proposer-revotes-different-value" {
+			class = ns + strings.TrimPrefix(class, "recovery")
+		}
 		x.c.Hist["verdict:conflict"]++
 		x.c.Violation(class, what, sc, false)
 	}
 	if v[1] != "1" {
 		bad = true
-		x.c.Violation("recovery:resume-height", fmt.Sprintf("life %d: commit callbacks after the restart are not consecutive from the height after the last completed commit", idx), sc, false)
+		x.c.Violation(ns+":resume-height", fmt.Sprintf("life %d: commit callbacks after the restart are not consecutive from the height after the last completed commit", idx), sc, false)
 	}
 	if v[2] != "1" {
 		bad = true
-		x.c.Violation("recovery:visible-before-flush:"+phase, fmt.Sprintf("life %d: a broadcast / commit callback happened with unflushed log appends before it", idx), sc, false)
+		x.c.Violation(ns+":visible-before-flush:"+phase, fmt.Sprintf("life %d: a broadcast / commit callback happened with unflushed log appends before it", idx), sc, false)
 	}
 	if v[3] != "1" && staleTimeoutCommit(obs) != "" {
 		bad = true
@@ -148,23 +192,38 @@ func (x *runner) judge(sc *Scenario, idx int, obs *lifeObs, pre []string, nextH 
 		x.c.Violation("recovery:stale-timeout-commits-unlogged", staleTimeoutCommit(obs), sc, false)
 	} else if v[3] != "1" {
 		bad = true
-		x.c.Violation("recovery:visible-without-logged-input:"+phase, fmt.Sprintf("life %d: a step made effects visible without first appending its own input", idx), sc, false)
+		x.c.Violation(ns+":visible-without-logged-input:"+phase, fmt.Sprintf("life %d: a step made effects visible without first appending its own input", idx), sc, false)
+	}
+	if l.Fault != nil || (idx > 0 && sc.Lives[idx-1].Fault != nil) {
+		if x.judgeLog(sc, idx, obs, sum, nextH, ns) {
+			bad = true
+		}
 	}
 	if mismatch != "" {
-		x.c.Violation("model-vs-driver:trace:"+phase, mismatch, sc, !bad)
+		if ns == "recovery" {
+			x.c.Violation("model-vs-driver:trace:"+phase, mismatch, sc, !bad)
+		} else {
+			x.c.Violation(ns+":trace:"+phase, mismatch, sc, !bad)
+		}
 	}
-	if obs.RunErr != "" && !obs.Crashed {
+	if obs.RunErr != "" && !obs.Crashed && !(obs.Stopped && expectedRunErr(l.Fault, obs)) {
 		x.c.Violation("driver:run-error", obs.RunErr, sc, true)
 	}
-	if len(sum) >= 8 {
+	if l.Fault != nil && len(sum) >= 7 {
+		x.c.Hist["hypothesis:fault-life-plain="+sum[6]]++
+	}
+	if len(sum) >= 8 && l.Fault == nil {
 		if sum[6] != "-" && l.CrashAt < 0 {
-			x.c.Hist["hypothesis:plain-run(good_run)="+sum[6]]++
+			x.c.Hist["hypothesis:plain_run="+sum[6]]++
 		}
 		if sum[7] != "-" {
 			x.c.Hist["hypothesis:life_disc="+sum[7]]++
 		}
+		if len(sum) >= 10 && sum[9] != "-" {
+			x.c.Hist["hypothesis:replay_quiet="+sum[9]]++
+		}
 		if len(sum) >= 9 && sum[8] != "-" {
-			x.c.Hist["hypothesis:restarted-life-plain(live_good)="+sum[8]]++
+			x.c.Hist["hypothesis:restarted-life-plain(live_plain)="+sum[8]]++
 		}
 	}
 	x.c.Hist["life:"+phase]++
@@ -200,6 +259,96 @@ func (x *runner) judge(sc *Scenario, idx int, obs *lifeObs, pre []string, nextH 
 		x.c.Hist[fmt.Sprintf("replayed_entries:%s", bucket(replayed))]++
 	}
 	x.c.Count(fmt.Sprintf("%s|%d|%s", sc.Case.newLine(), idx, lifeLine(l)), l.CrashAt >= 0 || replayed > 0)
+}
+
+// a life with a Fault script returns the injected error (or the context's) and nothing else
+func expectedRunErr(f *Fault, obs *lifeObs) bool {
+	e := obs.RunErr
+	for _, ok := range []string{errInjected.Error(), "commit listener failed", "context canceled", "flushing WAL: ", "writing WAL: ", "deleting WAL messages during commit: ", "\n"} {
+		e = strings.ReplaceAll(e, ok, "")
+	}
+	return strings.TrimSpace(e) == ""
+}
+
+// judgeLog: the log directory a life left when it returned through Close (and, when recorded, the directory at
+// every state machine call) against the model's, and the predicates about the log on the implementation's
+// own observations.  Reports true if a predicate failed.
+func (x *runner) judgeLog(sc *Scenario, idx int, obs *lifeObs, sum []string, nextH uint64, ns string) bool {
+	l := &sc.Lives[idx]
+	bad := false
+	effs := obs.effects()
+	if l.Fault != nil {
+		x.c.Hist["fault:"+l.Fault.Kind+":"+opKind(obs.failedOp())]++
+		if len(sum) >= 12 {
+			x.c.Hist["hypothesis:stop_ok="+sum[9]]++
+			if sum[9] == "0" && os.Getenv("C13DBG") != "" {
+				fmt.Fprintln(os.Stderr, "stop_ok=0:", lifeLine(l), strings.Join(effs, " "))
+			}
+			if sum[10] != "1" {
+				x.c.Violation(ns+":script-does-not-fit", fmt.Sprintf("life %d: the operation number %d of the model's life is not a store call / commit callback", idx, l.Fault.At), sc, true)
+			}
+			if len(sum) >= 13 && sum[12] != "-" {
+				x.c.Hist["theorem:stop-restart-same-state="+sum[12]]++
+				if sum[12] != "1" {
+					x.c.Violation("model-contradicts-theorem:stop-restart-same-state", fmt.Sprintf("life %d", idx), sc, true)
+				}
+			}
+		}
+	}
+	for _, sd := range obs.StepDirs {
+		want := strings.Fields(x.or.Ask(fmt.Sprintf("diskat %d", sd.NEff), 1)[0])
+		got := readLog(sd.Dir)
+		x.c.Hist["durable-log-compared:at-call"]++
+		if strings.Join(want[1:], " ") != strings.Join(got, " ") {
+			x.c.Violation(ns+":durable-log-at-call", fmt.Sprintf("life %d after %d effects: model log [%s] driver log [%s]", idx, sd.NEff, strings.Join(want[1:], " "), strings.Join(got, " ")), sc, true)
+		}
+	}
+	if obs.Snapshot == "" || l.Fault == nil {
+		return bad
+	}
+	want := strings.Fields(x.or.Ask("disk", 1)[0])
+	got := readLog(obs.Snapshot)
+	x.c.Hist["durable-log-compared:at-end"]++
+	logMismatch := ""
+	if strings.Join(want[1:], " ") != strings.Join(got, " ") {
+		logMismatch = fmt.Sprintf("life %d (%s): model log [%s] driver log [%s]", idx, l.Fault, strings.Join(want[1:], " "), strings.Join(got, " "))
+	}
+	// the predicates, on the driver's effects and on what its directory holds
+	v := strings.Fields(x.or.Ask(fmt.Sprintf("covers %d ; %s ; %s", nextH-1, strings.Join(effs, " "), strings.Join(got, " ")), 1)[0])
+	if v[0] != "1" {
+		bad = true
+		what := "log-misses-visible-input"
+		if fo := obs.failedOp(); strings.HasPrefix(fo, "cb:") && !strings.Contains(strings.Join(effs, " "), fo) {
+			what = "log-pruned-for-incomplete-commit"
+		}
+		x.c.Violation(ns+":"+what, fmt.Sprintf("life %d (%s): an entry whose effects were made visible, of a height above the last completed commit (%d), is not in the log directory [%s] after [%s]", idx, l.Fault, nextH-1, strings.Join(got, " "), strings.Join(effs, " ")), sc, false)
+	}
+	if v[1] != "1" {
+		bad = true
+		x.c.Violation(ns+":prune-without-completed-commit", fmt.Sprintf("life %d (%s): DeleteWALEntries not right after a commit callback of that height that returned true: [%s]", idx, l.Fault, strings.Join(effs, " ")), sc, false)
+	}
+	if v[2] != "1" {
+		bad = true
+		x.c.Violation(ns+":pending-when-visible", fmt.Sprintf("life %d (%s): a broadcast / commit callback with appended or pruned records not flushed: [%s]", idx, l.Fault, strings.Join(effs, " ")), sc, false)
+	}
+	if logMismatch != "" {
+		x.c.Violation(ns+":durable-log", logMismatch, sc, !bad)
+	}
+	return bad
+}
+
+func opKind(op string) string {
+	switch {
+	case op == "":
+		return "none"
+	case op == "fl":
+		return "Flush"
+	case strings.HasPrefix(op, "cb:"):
+		return "OnCommit"
+	case strings.HasPrefix(op, "pr:"):
+		return "DeleteWALEntries"
+	}
+	return "SetWALEntry"
 }
 
 // a timeout that matches nothing (stale) still runs processLoop; if a commit was pending (quorum of precommits
@@ -239,7 +388,7 @@ func (x *runner) runFixed(sc *Scenario) []*lifeObs {
 	var all []*lifeObs
 	for i := range sc.Lives {
 		l := &sc.Lives[i]
-		obs := runLife(&sc.Case, dir, l.H, l.Base, l.CrashAt, fixedFeeder(l.Ins))
+		obs := runLifeF(&sc.Case, dir, l.H, l.Base, l.CrashAt, l.Fault, l.Fault != nil, fixedFeeder(l.Ins))
 		nextH := l.H + countCb(obs.effects())
 		x.judge(sc, i, obs, pre, nextH)
 		pre = append(pre, obs.effects()...)
